@@ -1,4 +1,5 @@
 import SdbModel.Model.StatusSet
+import SdbModel.Generated.SliceParams
 /-!
   C15 with several reconcilers per object (`reconciler.StatusSet`): "Its writes change nothing
   but the status of the object" — a reconciler's status write must leave the statuses of all
@@ -234,6 +235,11 @@ theorem C15_statusset_set_commute (s : SS) (n k m : Nat) (a b : Status) (hnk : n
       rw [C15_statusset_get_set_same, C15_statusset_get_set_other _ _ _ _ h1, C15_statusset_get_set_same]
     · rw [C15_statusset_get_set_other _ _ _ _ h2, C15_statusset_get_set_other _ _ _ _ h1,
           C15_statusset_get_set_other _ _ _ _ h1, C15_statusset_get_set_other _ _ _ _ h2]
+
+/-- `Model.StatusSet` treats values as immutable; in the code a `StatusSet` value shares its
+    `statuses` slice with every copy of the object it was read from.  Today's `Set` and `Pending`
+    clone the slice — unconditionally, before the first write through it (regenerated) -/
+theorem C15_statusset_value_semantics_source_fact : Gen.statusSetClonesBeforeWriting = true := by decide
 
 /-! non-vacuity -/
 example : (((({ id := 1 } : SS).set 5 ⟨.done, 2⟩).set 3 ⟨.error, 3⟩).set 5 ⟨.pending, 4⟩).statuses
